@@ -5,7 +5,7 @@ from pyvc import run
 KEEP = ("C19", "2047", "consumed", "buffer position", "raw view", "pre:", "inv-entry", "dec#")
 def build(repo, tier, seed):
     tasks = M.hdlc_tasks(repo, None, True) + [("p1reader", DM.group_p1reader, (repo,))]
-    r = M.groups_result(tasks, select=lambda oid: any(c in oid for c in KEEP))
+    r = M.groups_result(tasks, select=None)
     r.functions = sorted(set(M.READER_FUNCS) | set(DM.P1_FUNCS))
     r.assumptions = ["retained memory = the reader's byte buffers (_buffer, _raw_frame_data / _raw_data, current frame octets); Python object overhead is a constant per reader",
                      "prelude contracts for bytearray.extend/append/clear/find and slicing (offset views)"]
